@@ -543,4 +543,29 @@ theorem groupIds_step (ex : List Bool) (k : Nat) (hk : k < ex.length) :
       b = if e then a + 1 else a :=
   ⟨rfl, cumsumFrom_step ex 0 k hk⟩
 
+/-! ## Points carry everything: further coordinates, variances, masks -/
+
+/-- **points_unchanged**, for whole records: whatever a point carries besides its dimension coordinate and
+value (further per-point coordinates, a variance, mask flags — `β` is arbitrary), bin `k` of the result holds
+exactly the records of its index range, in order; there is one content list per bin -/
+theorem bin_contents_unchanged {β : Type} (pts : List β) (bins : List (Nat × Nat)) :
+    (binContents pts bins).length = bins.length ∧
+    ∀ (k : Nat) (r : Nat × Nat), bins[k]? = some r → (binContents pts bins)[k]? = some (extract pts r) := by
+  constructor
+  · simp [binContents]
+  · intro k r h; simp [binContents, h]
+
+/-- projecting the records to one of their components (a coordinate, the mask flag, …) commutes with
+taking the bin: no component is lost or re-ordered -/
+theorem bin_contents_component {β γ : Type} (f : β → γ) (pts : List β) (r : Nat × Nat) :
+    (extract pts r).map f = extract (pts.map f) r := by
+  simp [extract, List.map_take, List.map_drop]
+
+/-- the collapsed value of a bin with masks is the mean of its unmasked points -/
+theorem collapse_masked_value (ys vars : List Float) (masked : List Bool) (r : Nat × Nat) :
+    (collapseMasked ys vars masked r).1 =
+      mean (((extract (ys.zip (vars.zip masked)) r).filter (fun p => !p.2.2)).map (·.1)) := rfl
+
+example : binContents ["a", "b", "c", "d"] [(1, 2)] = [["b", "c"]] := by decide
+
 end ScnVerif.Props.C19
